@@ -41,10 +41,14 @@ impl Reorg {
             .into_option()?;
 
           if index_block_hash == bitcoind_block_hash {
+            #[cfg(feature = "verif")]
+            crate::verif::probe("reorg.recoverable");
             return Err(anyhow!(reorg::Error::Recoverable { height, depth }));
           }
         }
 
+        #[cfg(feature = "verif")]
+        crate::verif::probe("reorg.unrecoverable");
         Err(anyhow!(reorg::Error::Unrecoverable))
       }
       _ => Ok(()),
@@ -58,6 +62,9 @@ impl Reorg {
       panic!("set index durability to `Durability::Immediate` to test reorg handling");
     }
 
+    #[cfg(feature = "verif")]
+    crate::verif::point("reorg.before", height.into())?;
+
     let mut wtx = index.begin_write()?;
 
     let oldest_savepoint =
@@ -66,7 +73,11 @@ impl Reorg {
     wtx.restore_savepoint(&oldest_savepoint)?;
 
     Index::increment_statistic(&wtx, Statistic::Commits, 1)?;
+    #[cfg(feature = "verif")]
+    crate::verif::point("reorg.restored", height.into())?;
     wtx.commit()?;
+    #[cfg(feature = "verif")]
+    crate::verif::point("reorg.after", height.into())?;
 
     log::info!(
       "successfully rolled back database to height {}",
@@ -123,10 +134,14 @@ impl Reorg {
           index.settings.max_savepoints()
         );
         wtx.delete_persistent_savepoint(savepoints.into_iter().min().unwrap())?;
+        #[cfg(feature = "verif")]
+        crate::verif::probe("savepoint.delete");
       }
 
       Index::increment_statistic(&wtx, Statistic::Commits, 1)?;
       wtx.commit()?;
+      #[cfg(feature = "verif")]
+      crate::verif::point("savepoint.deleted", height.into())?;
 
       let wtx = index.begin_write()?;
 
@@ -139,7 +154,11 @@ impl Reorg {
         .insert(&Statistic::LastSavepointHeight.key(), &height.into())?;
 
       Index::increment_statistic(&wtx, Statistic::Commits, 1)?;
+      #[cfg(feature = "verif")]
+      crate::verif::point("savepoint.creating", height.into())?;
       wtx.commit()?;
+      #[cfg(feature = "verif")]
+      crate::verif::point("savepoint.created", height.into())?;
     }
 
     Ok(())
